@@ -204,6 +204,42 @@ static int mode_open(const char *path)
 	return 0;
 }
 
+static void open_outcome(const char *path, char *buf, size_t n)
+{
+	clockbound_err err;
+	memset(&err, 0, sizeof err);
+	clockbound_ctx *ctx = clockbound_open(path, &err);
+	if (ctx) {
+		snprintf(buf, n, "OPENED");
+		clockbound_close(ctx);
+	} else {
+		snprintf(buf, n, "ERR_%s_%d_%s", kind_name(err.kind), err.sys_errno, (err.detail && err.detail[0]) ? err.detail : "-");
+		for (char *c = buf; *c; c++)
+			if (*c == ' ')
+				*c = '_';
+	}
+}
+
+/* The same path opened n times in one process (each context closed again): the outcome must not
+ * change, and a valid segment must still open afterwards. */
+static int mode_openmany(const char *path, const char *valid, long n)
+{
+	char first[512], last[512], v[512];
+	long changed_at = 0;
+	for (long k = 0; k < n; k++) {
+		open_outcome(path, last, sizeof last);
+		if (k == 0)
+			strcpy(first, last);
+		else if (strcmp(first, last) != 0) {
+			changed_at = k;
+			break;
+		}
+	}
+	open_outcome(valid, v, sizeof v);
+	printf("%s | first=%s | last=%s | changed_at=%ld | valid=%s\n", path, first, last, changed_at, v);
+	return 0;
+}
+
 static int mode_openlist(const char *list_path)
 {
 	FILE *lf = fopen(list_path, "r");
@@ -352,6 +388,8 @@ int main(int argc, char **argv)
 		return mode_open(argv[2]);
 	if (argc >= 4 && strcmp(argv[1], "script") == 0)
 		return mode_script(argv[2], argv[3]);
+	if (argc >= 5 && strcmp(argv[1], "openmany") == 0)
+		return mode_openmany(argv[2], argv[3], atol(argv[4]));
 	if (argc >= 3 && strcmp(argv[1], "openlist") == 0)
 		return mode_openlist(argv[2]);
 	if (argc >= 3 && strcmp(argv[1], "order") == 0)
